@@ -1,7 +1,7 @@
 #!/bin/bash
 id=$1; k=$2
-out=/tmp/seed9/${id}_out
-d=/tmp/cp9_${id}_$k
+out=${SEED_DIR:-/tmp/seed11}/${id}_out
+d=/tmp/cp_${id}_$k
 rm -rf $d; mkdir -p $d
 cd /repo && git archive HEAD | tar -x -C $d
 cd $d && git init -q . >/dev/null 2>&1 && git add -A >/dev/null 2>&1 && git -c user.email=a@b -c user.name=x commit -qm o >/dev/null 2>&1
